@@ -90,25 +90,30 @@ def dropStep (a : DynArray) (index1 : Int) (array1 : List Row) : Int × List Row
     else (index1, array1)
   | none => (index1, array1)
 
-/-- `append` -/
-def append (a : DynArray) (r : Row) : Except Err DynArray :=
-  let index1 := a.index + 1
-  let array1 := if index1 ≠ 0 ∧ index1 + 1 ≥ a.array.length then a.array ++ zeros a.bucket a.width else a.array
-  let (index2, array2) := a.dropStep index1 array1
+/-- the growth step shared by `append` and `append_multiple`: add `extra` zero rows when the array
+    is about to be full -/
+def grow (a : DynArray) (index1 : Int) (extra : Nat) : List Row :=
+  if index1 ≠ 0 ∧ index1 + 1 ≥ a.array.length then a.array ++ zeros extra a.width else a.array
+
+/-- `self.array[self.index] = item` (NumPy integer indexing on the backing array) -/
+def writeRow (a : DynArray) (index2 : Int) (array2 : List Row) (r : Row) : Except Err DynArray :=
   match Py.normIdx array2.length index2 with
   | some k => .ok { a with index := index2, array := array2.set k r }
   | none => .error .IndexError
 
-/-- `append_multiple` -/
+/-- `append` -/
+def append (a : DynArray) (r : Row) : Except Err DynArray :=
+  let p := a.dropStep (a.index + 1) (a.grow (a.index + 1) a.bucket)
+  a.writeRow p.1 p.2 r
+
+/-- `append_multiple`: grow, write the rows at `[index-n+1 : index+1]`, then the drop-oldest step -/
 def appendMultiple (a : DynArray) (items : List Row) : Except Err DynArray :=
-  let n := items.length
-  let index1 := a.index + n
-  let array1 := if index1 ≠ 0 ∧ index1 + 1 ≥ a.array.length
-    then a.array ++ zeros (max n a.bucket) a.width else a.array
-  let (index2, array2) := a.dropStep index1 array1
-  match npAssign array2 (index2 - n + 1) (index2 + 1) items with
-  | some arr => .ok { a with index := index2, array := arr }
+  match npAssign (a.grow (a.index + items.length) (max items.length a.bucket))
+      (a.index + items.length - items.length + 1) (a.index + items.length + 1) items with
   | none => .error .ValueError
+  | some arr =>
+    let p := a.dropStep (a.index + items.length) arr
+    .ok { a with index := p.1, array := p.2 }
 
 /-- `delete(index, axis=0)` -/
 def delete (a : DynArray) (i : Int) : Except Err DynArray :=
